@@ -149,8 +149,8 @@ def _work(job):
     if getattr(prop, 'k2_mask', None) is not None and v[0] == 'A' and tr.exc is None:
         import engine_k2
         if engine_k2.in_scope(cfg):
-            k2 = engine_k2.check_trace(tr, _DRV, max_frames=getattr(prop, 'k2_frames', 60), mask=prop.k2_mask or None)
-            res['k2'] = {'frames': k2['frames'], 'other': k2['other']}
+            k2 = engine_k2.check_trace(tr, _DRV, max_frames=getattr(prop, 'k2_frames', 60), mask=prop.k2_mask or None, inv_mask=getattr(prop, 'k2_invs', None))
+            res['k2'] = {'frames': k2['frames'], 'other': k2['other'], 'inv_frames': k2.get('inv_frames', 0)}
             if k2['mismatch'] and 'soft' not in res:
                 res['soft'] = {'clause': 900, 'frame': k2['mismatch'].get('frame'), 'k2': k2['mismatch']}
     res['nontrivial'] = bool(prop.nontrivial(tr)) and len(tr.frames) >= prop.min_frames
@@ -354,7 +354,7 @@ def run_check(pid, tier, seed, replay=None):
     kernel_cases = []
     violations = []
     known_hit = {}
-    k2tot = {'runs': 0, 'frames': 0, 'other_slices_diverged': 0}
+    k2tot = {'runs': 0, 'frames': 0, 'other_slices_diverged': 0, 'real_snapshots_satisfying_the_T2_invariants': 0}
     known_clauses = {}
     agg_stats = {}
     for r in results:
@@ -390,6 +390,7 @@ def run_check(pid, tier, seed, replay=None):
             k2tot['runs'] += 1
             k2tot['frames'] += r['k2']['frames']
             k2tot['other_slices_diverged'] += r['k2']['other']
+            k2tot['real_snapshots_satisfying_the_T2_invariants'] += r['k2'].get('inv_frames', 0)
         if r.get('exc'):
             cov['impl_exceptions'] += 1
             k = '%s@%s' % (r['exc'][0], r['exc'][1])
